@@ -11,6 +11,8 @@ use suiron::*;
 pub enum Term {
     Atom(String),
     Int(i64),
+    /// a float literal, kept as text ("2.5") so that scenarios stay Eq + Hash
+    Float(String),
     Var(String),
     Anon,
     /// [t1, t2, ... | $Tail]
@@ -77,6 +79,7 @@ impl Term {
         match self {
             Term::Atom(s) => Unifiable::Atom(s.clone()),
             Term::Int(i) => Unifiable::SInteger(*i),
+            Term::Float(t) => Unifiable::SFloat(t.parse::<f64>().unwrap_or(0.5)),
             Term::Var(name) => Unifiable::LogicVar { id: 0, name: name.clone() },
             Term::Anon => Unifiable::Anonymous,
             Term::List(items, tail) => {
@@ -203,6 +206,7 @@ impl fmt::Display for Term {
         match self {
             Term::Atom(s) => write!(f, "{}", s),
             Term::Int(i) => write!(f, "{}", i),
+            Term::Float(t) => write!(f, "{}", t),
             Term::Var(v) => write!(f, "{}", v),
             Term::Anon => write!(f, "$_"),
             Term::List(items, tail) => match tail {
